@@ -65,7 +65,7 @@ func findResolver(p *core.Program) (*types.Func, []resolverSite, string) {
 				}
 				// a pure query (`_, _, ok := resolve(…)`: neither the type nor the function name is
 				// used) types and rewrites nothing: it is not a site of R17.1
-				if queryOnly[c] {
+				if queryOnly[c] && rel == "checker" {
 					return true
 				}
 				byFn[fn] = append(byFn[fn], resolverSite{rel, fd, c})
